@@ -2127,7 +2127,7 @@ def bool_match_to_if(fn):
         if scr is None:
             return x
         line = x.get("line")
-        if scr.get("k") == "tup" and all(_pure_place(c_) for c_ in scr["xs"]):
+        if scr.get("k") == "tup" and all(_pure_expr(c_) for c_ in scr["xs"]):
             comps = len(scr["xs"])
             comp = lambda i: copy.deepcopy(scr["xs"][i])
         elif scr.get("k") == "local" and _tuple_init(fn, scr["hid"]) is not None:
